@@ -127,6 +127,12 @@ Fixpoint after_crashes (f : fs) (h : list (bytes * N * nat)) : fs :=
   | [] => f
   | (c, sz, k) :: tl => after_crashes (crash_from f c sz k) tl
   end.
+(* rename(2) onto a mount point (a state file bind-mounted into a container) is refused by the
+   kernel with EBUSY: the protocol stops after LockExcl with an error, the guard removes the temp
+   file, the lock is dropped *)
+Definition save_refused (prior : option bytes) (new : bytes) (sz : N) : fs :=
+  unlink (crash prior new sz 7) (Temp writer).
+
 (* a save that runs to completion *)
 Definition save_complete (f : fs) (new : bytes) (sz : N) : fs := fst (run writer f (wst0 new sz) protocol).
 
